@@ -155,12 +155,13 @@ def run(repo, chk):
     fpr = facts_of(pr)
     reports = [(t_, set(c_), n) for t_, c_, n in fpr.starting("problems.append(") if isinstance(n, ast.Call)]
     fnv = (fpr.bound_to("self.element.name") or ["self.element.name"])[0]
+    dv = ([v for t_ in ("info.get(x.name.split('.')[0], None)", "info.get(x.name.split('.')[0])", "info.get(name, None)") for v in fpr.bound_to(t_)] or ["data"])[0]
     for key, need, what in (
             ("wildcard-function", [{f"{fnv} is None"}, {"self.element.name is None"}], "a wildcard in function position"),
             ("untooled-function", [{"info is None"}, {f"getattr({fnv}, '__ptera_info__', None) is None"}, {"getattr(self.element.name, '__ptera_info__', None) is None"}],
              "a function without a variable table (not instrumentable / unresolved)"),
-            ("missing-variable", [{"not data", "x.name is not None"}], "a variable that occurs nowhere in the function"),
-            ("category-mismatch", [{"not check_element(x, x.name, data['annotation'])", "data"}], "a named variable whose category does not match"),
+            ("missing-variable", [{f"not {dv}", "x.name is not None"}], "a variable that occurs nowhere in the function"),
+            ("category-mismatch", [{f"not check_element(x, x.name, {dv}['annotation'])", dv}], "a named variable whose category does not match"),
             ("no-variable-with-category", [{"x.name is None"}], "a generic capture whose category matches no variable"),
             ("unknown-meta-variable", [{"x.name not in _valid_hashvars", "x.name.startswith('#')"}], "an undocumented #meta variable")):
         chk.ob("R10.5", f"selector.Call.problems:{key}", any(alt <= c_ for alt in need for _, c_, _ in reports), pr.where, f"problems() reports {what}")
